@@ -398,7 +398,11 @@ def reference(n, m, D, cut, pts, outside):
     Z = np.sqrt(LD(n + 1)) * R * A
     if cut:
         Z = np.where(outside, LD(0), Z)
-    return Z
+    # magnitude of the factors: an azimuthal factor near a zero of cos/sin carries an absolute error
+    # of a few ulp *of the radial factor*, so tolerances scale with this, not with |Z| alone
+    Rm = np.where(outside, LD(0), R) if cut else R
+    mag = float(np.max(np.abs(np.sqrt(LD(2 * (n + 1))) * Rm))) if len(r) else 0.0
+    return Z, mag
 
 
 # ---------------------------------------------------------------------------------------------
@@ -421,28 +425,28 @@ def judge(case, real, fresh, refs, amb, npts):
     """The property clauses on the observations of the real code. Returns [(key, what)]."""
     bad = []
     kind = case['kind']
-    for (n, m, cut), z, zf, ref in zip(case['reqs'], real, fresh, refs):
+    for qi, ((n, m, cut), z, zf, (ref, mag)) in enumerate(zip(case['reqs'], real, fresh, refs)):
         tag = 'zernike(%d,%d,D=%r,cutoff=%s) on %s grid' % (n, m, case['D'], cut, kind)
         if isinstance(z, str):
-            bad.append(('raises ' + kind, '%s %s' % (tag, z))); continue
+            bad.append(('raises ' + kind, '%s %s' % (tag, z), qi)); continue
         if z.shape != (npts,):
-            bad.append(('field-length ' + kind, '%s returned %d values for %d grid points' % (tag, z.size, npts))); continue
+            bad.append(('field-length ' + kind, '%s returned %d values for %d grid points' % (tag, z.size, npts), qi)); continue
         refd = ref.astype(float)
-        scale = max(1.0, float(np.max(np.abs(refd)))) if npts else 1.0
+        scale = max(1.0, mag)
         err = np.abs(z - refd); err[amb & bool(cut)] = 0.0
         nan = np.isnan(z) & ~(amb & bool(cut))
         if nan.any():
             j = int(np.nonzero(nan)[0][0])
             centre = bool(refd[j] == refd[j]) and n - abs(m) >= 4 and point_radius(case, j) == 0.0
-            bad.append(('nan-at-centre' if centre else 'nan ' + kind, '%s is NaN at point %d (definition gives %.12g)' % (tag, j, refd[j])))
+            bad.append(('nan-at-centre' if centre else 'nan ' + kind, '%s is NaN at point %d (definition gives %.12g)' % (tag, j, refd[j]), qi))
         elif (err > TOL * scale).any():
             j = int(np.argmax(err))
-            bad.append(('value ' + kind, '%s = %.12g at point %d, definition gives %.12g' % (tag, z[j], j, refd[j])))
+            bad.append(('value ' + kind, '%s = %.12g at point %d, definition gives %.12g' % (tag, z[j], j, refd[j]), qi))
         if case['cache'] and not isinstance(zf, str) and zf.shape == z.shape:
             d = ~((z == zf) | (np.isnan(z) & np.isnan(zf)))
             if d.any():
                 j = int(np.nonzero(d)[0][0])
-                bad.append(('cache-dependence ' + kind, '%s with a shared cache = %r at point %d, without cache %r (request history matters)' % (tag, z[j], j, zf[j])))
+                bad.append(('cache-dependence ' + kind, '%s with a shared cache = %r at point %d, without cache %r (request history matters)' % (tag, z[j], j, zf[j]), qi))
     return bad
 
 
@@ -456,6 +460,22 @@ def point_radius(case, j):
     return math.hypot(pts[1][j], pts[2][j])
 
 
+def shrink(hz, case, key, qi):
+    """smaller request histories that still fail the same clause: the failing request alone, the earlier
+    requests for the same (n, |m|) plus the failing one, the prefix up to the failing one"""
+    reqs = case['reqs']
+    n0, m0 = reqs[qi][0], abs(reqs[qi][1])
+    same = [q for q in reqs[:qi] if q[0] == n0 and abs(q[1]) == m0]
+    cands = [dict(case, reqs=[reqs[qi]], cache=False), dict(case, reqs=[reqs[qi]]), dict(case, reqs=same[-1:] + [reqs[qi]]),
+             dict(case, reqs=same + [reqs[qi]]), dict(case, reqs=reqs[:qi + 1])]
+    for c in cands:
+        grid, pts, real, fresh, outside, amb, refs = observe(hz, c)
+        for k, what, _ in judge(c, real, fresh, refs, amb, len(pts[1])):
+            if k == key:
+                return c, what
+    return case, None
+
+
 def observe(hz, case):
     grid, pts = build(case)
     D = case['D']
@@ -463,12 +483,13 @@ def observe(hz, case):
     real = real_values(hz, grid, D, case['reqs'], cache)
     fresh = real if not case['cache'] else [real_values(hz, grid, D, [q], None)[0] for q in case['reqs']]
     outside, amb = cut_info(pts, D)
-    refs = [reference(n, m, D, cut, pts, outside) for n, m, cut in case['reqs']]
+    both = [reference(n, m, D, cut, pts, outside) for n, m, cut in case['reqs']]
+    refs = [(z, mag) for z, mag in both]
     return grid, pts, real, fresh, outside, amb, refs
 
 
 def check_values(ctx, hz):
-    ncases = ctx.scale(140, 2500)
+    ncases = ctx.scale(140, 6000)
     cases = directed_cases()
     for k in range(ncases):
         cases.append(gen_case(ctx.rng, big=(ctx.tier == 'thorough' and k % 4 == 0)))
@@ -478,10 +499,11 @@ def check_values(ctx, hz):
         npts = len(pts[1])
         bad = judge(case, real, fresh, refs, amb, npts)
         seen = set()
-        for key, what in bad:
+        for key, what, qi in bad:
             if key not in seen:
                 seen.add(key)
-                ctx.violation(key, what, case)
+                small, what2 = shrink(hz, case, key, qi) if not any(v['key'] == key for v in ctx.violations) else (case, None)
+                ctx.violation(key, what2 or what, small)
         ctx.boundary_skipped += int(amb.sum())
         ctx.count('points', npts); ctx.count('rim-ambiguous-points', int(amb.sum()))
         ctx.count('grid:' + case['kind']); ctx.count('cache:' + str(case['cache']))
@@ -489,13 +511,14 @@ def check_values(ctx, hz):
         has0 = bool((rr == 0).any()); hasrim = bool((2 * rr == case['D']).any())
         ctx.count('cases-with-centre-point', int(has0)); ctx.count('cases-with-rim-point', int(hasrim))
         lines.append(pts_line(pts))
+        base_slot = len(slots)
         for (n, m, cut), z in zip(case['reqs'], real):
             ctx.count('n-|m|>=4' if n - abs(m) >= 4 else 'n-|m|<4')
             ctx.count('order:%d' % n)
             ctx.case({'kind': case['kind'], 'D': case['D'], 'n': n, 'm': m, 'cutoff': cut, 'cache': case['cache'], 'npts': npts}
                      if n >= 6 and case['kind'] != 'cart-regular' else None,
                      (case['kind'], n, m, bool(cut), case['cache'], has0, hasrim) if npts > 0 else None)
-            slots.append((len(lines), case, n, m, cut, z, amb))
+            slots.append((len(lines), case, n, m, cut, z, amb, refs[len(slots) - base_slot][1]))
             lines.append('C13 mode %d %d %s %d' % (n, m, rat(case['D']), 1 if cut else 0))
     ctx.count('boundary_fraction_permille', 0)
     total_pts = ctx.dist.get('points', 0)
@@ -503,7 +526,7 @@ def check_values(ctx, hz):
         raise MachineryError('generator produced %d ambiguous rim points of %d' % (ctx.boundary_skipped, total_pts))
     # ---- correspondence: the model's exact rational factor times sqrt(normSq) vs the code
     out = ctx.model(lines)
-    for idx, case, n, m, cut, z, amb in slots:
+    for idx, case, n, m, cut, z, amb, mag in slots:
         if not out[idx].startswith('ok '):
             raise MachineryError('model answered %r to %r' % (out[idx][:60], lines[idx]))
         q = parse_rat_list(out[idx][3:])
@@ -514,7 +537,7 @@ def check_values(ctx, hz):
             ctx.disagree('C13 mode', {'case': case, 'req': [n, m, cut], 'impl': z if isinstance(z, str) else 'length %d' % z.size, 'model': 'length %d' % len(mv)},
                          key=None)
             continue
-        scale = max(1.0, float(np.max(np.abs(mv)))) if len(mv) else 1.0
+        scale = max(1.0, mag)
         err = np.abs(z - mv); skip = amb & bool(cut); err[skip] = 0.0
         if (np.isnan(z) & ~skip).any() or (err > TOL * scale).any():
             j = int(np.nanargmax(np.where(np.isnan(z) & ~skip, np.inf, err)))
@@ -587,7 +610,7 @@ def run(ctx):
                 'points are exact (dyadic radii, Pythagorean directions, always the centre r=0 and the rim r=D/2, radii down to '
                 '2^-20), in random request orders against one shared cache or none; oracle = the factorial definition in 80-bit '
                 'arithmetic, cache vs no cache bit for bit, field length; correspondence = exact rational model value times '
-                'sqrt(normSq), tolerance 1e-9*max(1,|ref|). A directed corpus evaluates all 231 modes on every grid kind first. '
+                'sqrt(normSq); tolerance 1e-9*max(1, max over the points of sqrt(2(n+1))|R(2r/D)|). A directed corpus evaluates all 231 modes on every grid kind first. '
                 '(C) make_zernike_basis (Noll/ANSI, cache on/off) on a Gauss-Legendre x uniform polar grid: Gram matrix = identity. '
                 'Non-trivial = a mode evaluation on a non-empty grid; distinct by (grid kind, n, m, cutoff, cache, centre present, rim present).')
     ctx.assumptions += ['np.hypot / arctan2 / cos / sin / pow are accurate to a few ulp',
@@ -639,7 +662,7 @@ def replay(ctx, case):
     else:
         grid, pts, real, fresh, outside, amb, refs = observe(hz, case)
         bad = judge(case, real, fresh, refs, amb, len(pts[1]))
-        for key, what_ in bad[:5]:
+        for key, what_, _ in bad[:5]:
             print('  fails:', key, '-', what_)
         ok = not bad
     return ok
